@@ -250,188 +250,190 @@ def mkSet (n : Nat) : RegSet := Fin.ofNat 65536 n
 
 def imm (n : Nat) : ImmReg := .imm (n : Int)
 
+/-! The Rust `match`es on bit-field values are written as `if … else if …` chains over the same values
+in the same order (the final `else .error .panic` is the `_ => unreachable!()` arm), which lets the
+proofs resolve every branch by linear arithmetic. -/
+
+/-- `0b01000`, bit 10 clear : data processing, `match (instr0 >> 6) & 0b1111` -/
+def decDataProc (op : Nat) (r0 r1 : Reg) : DecRes :=
+  if op = 0 then .ok (2, .and r0 r1)
+  else if op = 1 then .ok (2, .eor r0 r1)
+  else if op = 2 then .ok (2, .lsl r0 r0 (.reg r1))
+  else if op = 3 then .ok (2, .lsr r0 r0 (.reg r1))
+  else if op = 4 then .ok (2, .asr r0 r0 (.reg r1))
+  else if op = 5 then .ok (2, .adc r0 r1)
+  else if op = 6 then .ok (2, .sbc r0 r1)
+  else if op = 7 then .ok (2, .ror r0 r1)
+  else if op = 8 then .ok (2, .tst r0 r1)
+  else if op = 9 then .ok (2, .rsb r0 r1)
+  else if op = 10 then .ok (2, .cmp r0 (.reg r1))
+  else if op = 11 then .ok (2, .cmn r0 r1)
+  else if op = 12 then .ok (2, .orr r0 r1)
+  else if op = 13 then .ok (2, .mul r0 r1)
+  else if op = 14 then .ok (2, .bic r0 r1)
+  else if op = 15 then .ok (2, .mvn r0 r1)
+  else .error .panic
+
 /-- `0b01000` : data processing and special data / branch-exchange -/
 def dec01000 (h0 : Nat) : DecRes :=
   if h0 / 1024 % 2 = 0 then
-    withReg (h0 % 8) fun r0 => withReg (h0 / 8 % 8) fun r1 =>
-    match h0 / 64 % 16 with
-    | 0 => .ok (2, .and r0 r1)
-    | 1 => .ok (2, .eor r0 r1)
-    | 2 => .ok (2, .lsl r0 r0 (.reg r1))
-    | 3 => .ok (2, .lsr r0 r0 (.reg r1))
-    | 4 => .ok (2, .asr r0 r0 (.reg r1))
-    | 5 => .ok (2, .adc r0 r1)
-    | 6 => .ok (2, .sbc r0 r1)
-    | 7 => .ok (2, .ror r0 r1)
-    | 8 => .ok (2, .tst r0 r1)
-    | 9 => .ok (2, .rsb r0 r1)
-    | 10 => .ok (2, .cmp r0 (.reg r1))
-    | 11 => .ok (2, .cmn r0 r1)
-    | 12 => .ok (2, .orr r0 r1)
-    | 13 => .ok (2, .mul r0 r1)
-    | 14 => .ok (2, .bic r0 r1)
-    | 15 => .ok (2, .mvn r0 r1)
-    | _ => .error .panic
-  else
-    match h0 / 256 % 4 with
-    | 0 =>
-      withReg (h0 % 8 + h0 / 128 % 2 * 8) fun dst => withReg (h0 / 8 % 16) fun rhs =>
-      if dst.val = 15 ∧ rhs.val = 15 then .error (.unpredictable h0 none)
-      else .ok (2, .add false dst dst (.reg rhs))
-    | 1 =>
-      withReg (h0 % 8 + h0 / 128 % 2 * 8) fun lhs => withReg (h0 / 8 % 16) fun rhs =>
-      if lhs.val < 8 ∧ rhs.val < 8 then .error (.unpredictable h0 none)
-      else if lhs.val = 15 ∨ rhs.val = 15 then .error (.unpredictable h0 none)
-      else .ok (2, .cmp lhs (.reg rhs))
-    | 2 =>
-      withReg (h0 % 8 + h0 / 128 % 2 * 8) fun dst => withReg (h0 / 8 % 16) fun src =>
-      .ok (2, .mov false dst (.reg src))
-    | 3 =>
-      if h0 % 8 ≠ 0 then .error (.unpredictable h0 none)
-      else withReg (h0 / 8 % 16) fun off =>
-        if off.val = 15 then .error (.unpredictable h0 none)
-        else if h0 / 128 % 2 = 0 then .ok (2, .bx off) else .ok (2, .blx off)
-    | _ => .error .panic
+    withReg (h0 % 8) fun r0 => withReg (h0 / 8 % 8) fun r1 => decDataProc (h0 / 64 % 16) r0 r1
+  else if h0 / 256 % 4 = 0 then
+    withReg (h0 % 8 + h0 / 128 % 2 * 8) fun dst => withReg (h0 / 8 % 16) fun rhs =>
+    if dst.val = 15 ∧ rhs.val = 15 then .error (.unpredictable h0 none)
+    else .ok (2, .add false dst dst (.reg rhs))
+  else if h0 / 256 % 4 = 1 then
+    withReg (h0 % 8 + h0 / 128 % 2 * 8) fun lhs => withReg (h0 / 8 % 16) fun rhs =>
+    if lhs.val < 8 ∧ rhs.val < 8 then .error (.unpredictable h0 none)
+    else if lhs.val = 15 ∨ rhs.val = 15 then .error (.unpredictable h0 none)
+    else .ok (2, .cmp lhs (.reg rhs))
+  else if h0 / 256 % 4 = 2 then
+    withReg (h0 % 8 + h0 / 128 % 2 * 8) fun dst => withReg (h0 / 8 % 16) fun src =>
+    .ok (2, .mov false dst (.reg src))
+  else if h0 / 256 % 4 = 3 then
+    if h0 % 8 ≠ 0 then .error (.unpredictable h0 none)
+    else withReg (h0 / 8 % 16) fun off =>
+      if off.val = 15 then .error (.unpredictable h0 none)
+      else if h0 / 128 % 2 = 0 then .ok (2, .bx off) else .ok (2, .blx off)
+  else .error .panic
 
-/-- `0b01010..=0b01011` : load/store register offset -/
+/-- `0b01010..=0b01011` : load/store register offset, `match (instr0 >> 9) & 0b111` -/
 def dec0101 (h0 : Nat) : DecRes :=
   withReg (h0 % 8) fun reg => withReg (h0 / 8 % 8) fun addr => withReg (h0 / 64 % 8) fun off =>
-  match h0 / 512 % 8 with
-  | 0 => .ok (2, .str reg addr (.reg off))
-  | 1 => .ok (2, .strh reg addr (.reg off))
-  | 2 => .ok (2, .strb reg addr (.reg off))
-  | 3 => .ok (2, .ldrsb reg addr off)
-  | 4 => .ok (2, .ldr reg addr (.reg off))
-  | 5 => .ok (2, .ldrh reg addr (.reg off))
-  | 6 => .ok (2, .ldrb reg addr (.reg off))
-  | 7 => .ok (2, .ldrsh reg addr off)
-  | _ => .error .panic
+  if h0 / 512 % 8 = 0 then .ok (2, .str reg addr (.reg off))
+  else if h0 / 512 % 8 = 1 then .ok (2, .strh reg addr (.reg off))
+  else if h0 / 512 % 8 = 2 then .ok (2, .strb reg addr (.reg off))
+  else if h0 / 512 % 8 = 3 then .ok (2, .ldrsb reg addr off)
+  else if h0 / 512 % 8 = 4 then .ok (2, .ldr reg addr (.reg off))
+  else if h0 / 512 % 8 = 5 then .ok (2, .ldrh reg addr (.reg off))
+  else if h0 / 512 % 8 = 6 then .ok (2, .ldrb reg addr (.reg off))
+  else if h0 / 512 % 8 = 7 then .ok (2, .ldrsh reg addr off)
+  else .error .panic
 
-/-- `0b10110` : miscellaneous, first half -/
+/-- `0b10110` : miscellaneous, first half, `match (instr0 >> 8) & 0b111` -/
 def dec10110 (h0 : Nat) : DecRes :=
-  match h0 / 256 % 8 with
-  | 0 =>
+  if h0 / 256 % 8 = 0 then
     if h0 / 128 % 2 = 0 then .ok (2, .add false Reg.sp Reg.sp (imm (h0 % 128 * 4)))
     else .ok (2, .sub false Reg.sp Reg.sp (imm (h0 % 128 * 4)))
-  | 1 => .error (.undefined h0 none)
-  | 2 =>
+  else if h0 / 256 % 8 = 1 then .error (.undefined h0 none)
+  else if h0 / 256 % 8 = 2 then
     withReg (h0 % 8) fun dst => withReg (h0 / 8 % 8) fun value =>
     if h0 / 128 % 2 = 0 then
       if h0 / 64 % 2 = 0 then .ok (2, .sxth dst value) else .ok (2, .sxtb dst value)
     else
       if h0 / 64 % 2 = 0 then .ok (2, .uxth dst value) else .ok (2, .uxtb dst value)
-  | 3 => .error (.undefined h0 none)
-  | 4 | 5 =>
+  else if h0 / 256 % 8 = 3 then .error (.undefined h0 none)
+  else if h0 / 256 % 8 = 4 ∨ h0 / 256 % 8 = 5 then
     -- RegisterSet::of(low 8 bits), plus LR (bit 14) when bit 8 is set
-    let registers := h0 % 256 + h0 / 256 % 2 * 16384
-    if registers = 0 then .error (.unpredictable h0 none)
-    else .ok (2, .push (mkSet registers))
-  | 6 =>
+    if h0 % 256 + h0 / 256 % 2 * 16384 = 0 then .error (.unpredictable h0 none)
+    else .ok (2, .push (mkSet (h0 % 256 + h0 / 256 % 2 * 16384)))
+  else if h0 / 256 % 8 = 6 then
     if h0 / 32 % 8 = 3 then
       if h0 % 16 ≠ 2 then .error (.unpredictable h0 none)
       else .ok (2, .cps (h0 / 16 % 2 = 0))
     else .error (.undefined h0 none)
-  | 7 => .error (.undefined h0 none)
-  | _ => .error .panic
+  else if h0 / 256 % 8 = 7 then .error (.undefined h0 none)
+  else .error .panic
+
+/-- `0b10111`, `0b111` : hints, `match (instr0 >> 4) & 0b1111` -/
+def decHint (h0 op : Nat) : DecRes :=
+  if op = 0 then .ok (2, .nop)
+  else if op = 1 then .ok (2, .yield)
+  else if op = 2 then .ok (2, .wfe)
+  else if op = 3 then .ok (2, .wfi)
+  else if op = 4 then .ok (2, .sev)
+  else if 5 ≤ op ∧ op ≤ 15 then .error (.reserved h0 none)
+  else .error .panic
 
 /-- `0b10111` : miscellaneous, second half -/
 def dec10111 (h0 : Nat) : DecRes :=
-  match h0 / 256 % 8 with
-  | 0 | 1 => .error (.undefined h0 none)
-  | 2 =>
+  if h0 / 256 % 8 = 0 ∨ h0 / 256 % 8 = 1 then .error (.undefined h0 none)
+  else if h0 / 256 % 8 = 2 then
     withReg (h0 % 8) fun dst => withReg (h0 / 8 % 8) fun value =>
-    match h0 / 64 % 4 with
-    | 0 => .ok (2, .rev dst value)
-    | 1 => .ok (2, .rev16 dst value)
-    | 2 => .error (.undefined h0 none)
-    | 3 => .ok (2, .revsh dst value)
-    | _ => .error .panic
-  | 3 => .error (.undefined h0 none)
-  | 4 | 5 =>
-    let registers := h0 % 256 + h0 / 256 % 2 * 32768
-    if registers = 0 then .error (.unpredictable h0 none)
-    else .ok (2, .pop (mkSet registers))
-  | 6 => .ok (2, .bkpt ((h0 % 256 : Nat) : Int))
-  | 7 =>
-    if h0 % 16 = 0 then
-      match h0 / 16 % 16 with
-      | 0 => .ok (2, .nop)
-      | 1 => .ok (2, .yield)
-      | 2 => .ok (2, .wfe)
-      | 3 => .ok (2, .wfi)
-      | 4 => .ok (2, .sev)
-      | n => if 5 ≤ n ∧ n ≤ 15 then .error (.reserved h0 none) else .error .panic
-    else .error (.undefined h0 none)
-  | _ => .error .panic
+    if h0 / 64 % 4 = 0 then .ok (2, .rev dst value)
+    else if h0 / 64 % 4 = 1 then .ok (2, .rev16 dst value)
+    else if h0 / 64 % 4 = 2 then .error (.undefined h0 none)
+    else if h0 / 64 % 4 = 3 then .ok (2, .revsh dst value)
+    else .error .panic
+  else if h0 / 256 % 8 = 3 then .error (.undefined h0 none)
+  else if h0 / 256 % 8 = 4 ∨ h0 / 256 % 8 = 5 then
+    if h0 % 256 + h0 / 256 % 2 * 32768 = 0 then .error (.unpredictable h0 none)
+    else .ok (2, .pop (mkSet (h0 % 256 + h0 / 256 % 2 * 32768)))
+  else if h0 / 256 % 8 = 6 then .ok (2, .bkpt ((h0 % 256 : Nat) : Int))
+  else if h0 / 256 % 8 = 7 then
+    if h0 % 16 = 0 then decHint h0 (h0 / 16 % 16) else .error (.undefined h0 none)
+  else .error .panic
 
 /-- `(off << (32 - bits)) >> (32 - bits - 1)` on an `i32` holding a `bits`-wide field: sign-extend, times two -/
 def sext2 (bits : Nat) (v : Nat) : Int :=
   if v ≥ 2 ^ (bits - 1) then (v : Int) * 2 - (2 ^ (bits + 1) : Nat) else (v : Int) * 2
 
-/-- `0b11010..=0b11011` : conditional branch, UDF, SVC -/
+/-- `0b11010..=0b11011` : conditional branch, UDF, SVC, `match (instr0 >> 8) & 0b1111` -/
 def dec1101 (h0 : Nat) : DecRes :=
-  let c := h0 / 256 % 16
-  if c ≤ 13 then withCond c fun cond => .ok (2, .b cond (sext2 8 (h0 % 256)))
-  else if c = 14 then .ok (2, .udf ((h0 % 256 : Nat) : Int))
-  else if c = 15 then .ok (2, .svc ((h0 % 256 : Nat) : Int))
+  if h0 / 256 % 16 ≤ 13 then withCond (h0 / 256 % 16) fun cond => .ok (2, .b cond (sext2 8 (h0 % 256)))
+  else if h0 / 256 % 16 = 14 then .ok (2, .udf ((h0 % 256 : Nat) : Int))
+  else if h0 / 256 % 16 = 15 then .ok (2, .svc ((h0 % 256 : Nat) : Int))
   else .error .panic
+
+/-- `0b00000` : MOVS (register) / LSLS (immediate) -/
+def dec00000 (h0 : Nat) : DecRes :=
+  if h0 / 64 % 32 = 0 then
+    withReg (h0 % 8) fun dst => withReg (h0 / 8 % 8) fun src => .ok (2, .mov true dst (.reg src))
+  else
+    withReg (h0 % 8) fun dst => withReg (h0 / 8 % 8) fun value =>
+    .ok (2, .lsl dst value (imm (h0 / 64 % 32)))
+
+/-- `0b00001`, `0b00010` : LSRS / ASRS (immediate); a shift field of 0 means 32 -/
+def decShift (h0 : Nat) (mk : Reg → Reg → ImmReg → Instr) : DecRes :=
+  withReg (h0 % 8) fun dst => withReg (h0 / 8 % 8) fun value =>
+  .ok (2, mk dst value (imm (if h0 / 64 % 32 = 0 then 32 else h0 / 64 % 32)))
+
+/-- `0b00011` : ADDS / SUBS three-operand forms -/
+def dec00011 (h0 : Nat) : DecRes :=
+  withReg (h0 % 8) fun dst => withReg (h0 / 8 % 8) fun lhs =>
+  if h0 / 1024 % 2 = 0 then
+    withReg (h0 / 64 % 8) fun rhs =>
+    if h0 / 512 % 2 = 0 then .ok (2, .add true dst lhs (.reg rhs)) else .ok (2, .sub true dst lhs (.reg rhs))
+  else
+    if h0 / 512 % 2 = 0 then .ok (2, .add true dst lhs (imm (h0 / 64 % 8)))
+    else .ok (2, .sub true dst lhs (imm (h0 / 64 % 8)))
+
+/-- load/store with a 5-bit immediate scaled by `scale` (`0b01100 ..= 0b10001`) -/
+def decLdStImm (h0 scale : Nat) (st ld : Reg → Reg → ImmReg → Instr) : DecRes :=
+  withReg (h0 % 8) fun reg => withReg (h0 / 8 % 8) fun addr =>
+  if h0 / 2048 % 2 = 0 then .ok (2, st reg addr (imm (h0 / 64 % 32 * scale)))
+  else .ok (2, ld reg addr (imm (h0 / 64 % 32 * scale)))
 
 /-- all 16-bit encodings: the arms `0b00000 ..= 0b11100` of `match instr0 >> 11` -/
 def decode16 (h0 : Nat) : DecRes :=
-  match h0 / 2048 with
-  | 0 =>
-    if h0 / 64 % 32 = 0 then
-      withReg (h0 % 8) fun dst => withReg (h0 / 8 % 8) fun src => .ok (2, .mov true dst (.reg src))
-    else
-      withReg (h0 % 8) fun dst => withReg (h0 / 8 % 8) fun value =>
-      .ok (2, .lsl dst value (imm (h0 / 64 % 32)))
-  | 1 =>
-    let shift := if h0 / 64 % 32 = 0 then 32 else h0 / 64 % 32
-    withReg (h0 % 8) fun dst => withReg (h0 / 8 % 8) fun value => .ok (2, .lsr dst value (imm shift))
-  | 2 =>
-    let shift := if h0 / 64 % 32 = 0 then 32 else h0 / 64 % 32
-    withReg (h0 % 8) fun dst => withReg (h0 / 8 % 8) fun value => .ok (2, .asr dst value (imm shift))
-  | 3 =>
-    withReg (h0 % 8) fun dst => withReg (h0 / 8 % 8) fun lhs =>
-    if h0 / 1024 % 2 = 0 then
-      withReg (h0 / 64 % 8) fun rhs =>
-      if h0 / 512 % 2 = 0 then .ok (2, .add true dst lhs (.reg rhs)) else .ok (2, .sub true dst lhs (.reg rhs))
-    else
-      if h0 / 512 % 2 = 0 then .ok (2, .add true dst lhs (imm (h0 / 64 % 8)))
-      else .ok (2, .sub true dst lhs (imm (h0 / 64 % 8)))
-  | 4 => withReg (h0 / 256 % 8) fun dst => .ok (2, .mov true dst (imm (h0 % 256)))
-  | 5 => withReg (h0 / 256 % 8) fun lhs => .ok (2, .cmp lhs (imm (h0 % 256)))
-  | 6 => withReg (h0 / 256 % 8) fun dst => .ok (2, .add true dst dst (imm (h0 % 256)))
-  | 7 => withReg (h0 / 256 % 8) fun dst => .ok (2, .sub true dst dst (imm (h0 % 256)))
-  | 8 => dec01000 h0
-  | 9 => withReg (h0 / 256 % 8) fun dst => .ok (2, .ldr dst Reg.pc (imm (h0 % 256 * 4)))
-  | 10 | 11 => dec0101 h0
-  | 12 | 13 =>
-    withReg (h0 % 8) fun reg => withReg (h0 / 8 % 8) fun addr =>
-    if h0 / 2048 % 2 = 0 then .ok (2, .str reg addr (imm (h0 / 64 % 32 * 4)))
-    else .ok (2, .ldr reg addr (imm (h0 / 64 % 32 * 4)))
-  | 14 | 15 =>
-    withReg (h0 % 8) fun reg => withReg (h0 / 8 % 8) fun addr =>
-    if h0 / 2048 % 2 = 0 then .ok (2, .strb reg addr (imm (h0 / 64 % 32)))
-    else .ok (2, .ldrb reg addr (imm (h0 / 64 % 32)))
-  | 16 | 17 =>
-    withReg (h0 % 8) fun reg => withReg (h0 / 8 % 8) fun addr =>
-    if h0 / 2048 % 2 = 0 then .ok (2, .strh reg addr (imm (h0 / 64 % 32 * 2)))
-    else .ok (2, .ldrh reg addr (imm (h0 / 64 % 32 * 2)))
-  | 18 | 19 =>
+  if h0 / 2048 = 0 then dec00000 h0
+  else if h0 / 2048 = 1 then decShift h0 .lsr
+  else if h0 / 2048 = 2 then decShift h0 .asr
+  else if h0 / 2048 = 3 then dec00011 h0
+  else if h0 / 2048 = 4 then withReg (h0 / 256 % 8) fun dst => .ok (2, .mov true dst (imm (h0 % 256)))
+  else if h0 / 2048 = 5 then withReg (h0 / 256 % 8) fun lhs => .ok (2, .cmp lhs (imm (h0 % 256)))
+  else if h0 / 2048 = 6 then withReg (h0 / 256 % 8) fun dst => .ok (2, .add true dst dst (imm (h0 % 256)))
+  else if h0 / 2048 = 7 then withReg (h0 / 256 % 8) fun dst => .ok (2, .sub true dst dst (imm (h0 % 256)))
+  else if h0 / 2048 = 8 then dec01000 h0
+  else if h0 / 2048 = 9 then withReg (h0 / 256 % 8) fun dst => .ok (2, .ldr dst Reg.pc (imm (h0 % 256 * 4)))
+  else if h0 / 2048 = 10 ∨ h0 / 2048 = 11 then dec0101 h0
+  else if h0 / 2048 = 12 ∨ h0 / 2048 = 13 then decLdStImm h0 4 .str .ldr
+  else if h0 / 2048 = 14 ∨ h0 / 2048 = 15 then decLdStImm h0 1 .strb .ldrb
+  else if h0 / 2048 = 16 ∨ h0 / 2048 = 17 then decLdStImm h0 2 .strh .ldrh
+  else if h0 / 2048 = 18 ∨ h0 / 2048 = 19 then
     withReg (h0 / 256 % 8) fun reg =>
     if h0 / 2048 % 2 = 0 then .ok (2, .str reg Reg.sp (imm (h0 % 256 * 4)))
     else .ok (2, .ldr reg Reg.sp (imm (h0 % 256 * 4)))
-  | 20 => withReg (h0 / 256 % 8) fun dst => .ok (2, .adr dst ((h0 % 256 * 4 : Nat) : Int))
-  | 21 => withReg (h0 / 256 % 8) fun dst => .ok (2, .add false dst Reg.sp (imm (h0 % 256 * 4)))
-  | 22 => dec10110 h0
-  | 23 => dec10111 h0
-  | 24 | 25 =>
+  else if h0 / 2048 = 20 then withReg (h0 / 256 % 8) fun dst => .ok (2, .adr dst ((h0 % 256 * 4 : Nat) : Int))
+  else if h0 / 2048 = 21 then withReg (h0 / 256 % 8) fun dst => .ok (2, .add false dst Reg.sp (imm (h0 % 256 * 4)))
+  else if h0 / 2048 = 22 then dec10110 h0
+  else if h0 / 2048 = 23 then dec10111 h0
+  else if h0 / 2048 = 24 ∨ h0 / 2048 = 25 then
     withReg (h0 / 256 % 8) fun addr =>
     if h0 / 2048 % 2 = 0 then .ok (2, .stm addr (mkSet (h0 % 256))) else .ok (2, .ldm addr (mkSet (h0 % 256)))
-  | 26 | 27 => dec1101 h0
-  | 28 => .ok (2, .b Cond.always (sext2 11 (h0 % 2048)))
-  | _ => .error .panic
+  else if h0 / 2048 = 26 ∨ h0 / 2048 = 27 then dec1101 h0
+  else if h0 / 2048 = 28 then .ok (2, .b Cond.always (sext2 11 (h0 % 2048)))
+  else .error .panic
 
 /-- the three barrier arms share their checks -/
 def decBarrier (h0 h1 : Nat) (i : Instr) : DecRes :=
@@ -453,11 +455,13 @@ def decode32 (h0 h1 : Nat) : DecRes :=
           | some sys => .ok (4, .msr sys reg)
           | none => .error (.unpredictable h0 (some h1))
     else if h0 / 16 % 128 = 59 ∧ (h1 / 4096 % 2 = 0 ∧ h1 / 16384 % 2 = 0) then
-      match h1 / 16 % 16 with
-      | 4 => decBarrier h0 h1 .dsb
-      | 5 => decBarrier h0 h1 .dmb
-      | 6 => decBarrier h0 h1 .isb
-      | n => if n ≤ 3 ∨ (7 ≤ n ∧ n ≤ 15) then .error (.undefined h0 (some h1)) else .error .panic
+      -- `match (instr1 >> 4) & 0b1111`
+      if h1 / 16 % 16 ≤ 3 then .error (.undefined h0 (some h1))
+      else if h1 / 16 % 16 = 4 then decBarrier h0 h1 .dsb
+      else if h1 / 16 % 16 = 5 then decBarrier h0 h1 .dmb
+      else if h1 / 16 % 16 = 6 then decBarrier h0 h1 .isb
+      else if 7 ≤ h1 / 16 % 16 ∧ h1 / 16 % 16 ≤ 15 then .error (.undefined h0 (some h1))
+      else .error .panic
     else if h0 / 32 % 64 = 31 ∧ (h1 / 4096 % 2 = 0 ∧ h1 / 16384 % 2 = 0) then
       -- MRS
       if h0 % 32 ≠ 15 ∨ h1 / 8192 % 2 ≠ 0 then .error (.unpredictable h0 (some h1))
